@@ -3,6 +3,7 @@
 From Coq Require Import String Ascii.
 From V.lib Require Import Base.
 From V.c19 Require Import C19Model C19Spec C19InvProofs C19TrackProofs C19DescProofs C19ElngProofs C19ScopeProofs C19Witness.
+From V.c19 Require Import C19RecModel C19RecProofs C19RecLinkProofs.
 
 
 (* For EVERY op sequence (any arguments, including calls that return an error or panic; the history stops
@@ -194,7 +195,8 @@ Print Assumptions C19_descriptor_stpp.
      forall in-scope ops, let init := run ops in
        decode (encode init) = init  /\  is_fragmented_init (decode (encode init))
        /\ forall track id of init, a fragment created for it decodes against decode (encode init).
-   Proved parts: C19_elng_roundtrip (the one variable-length box written from AddEmptyTrack's arguments, with the
+   Proved parts: C19_avcrec_roundtrip / C19_hvcrec_roundtrip / C19_descriptor_{avc,hevc}_record (the codec configuration
+   records, the only part of the tree written from the parameter sets, byte level, all profiles), C19_elng_roundtrip (the one variable-length box written from AddEmptyTrack's arguments, with the
    exact length boundary), C19_stpp_roundtrip (the stpp sample entry's strings), C19_language_readback (mdhd language field), C19_trex_lookup (unique ids, a trex for
    every track: what fragment decoding needs from the init).  The rest is evaluated on the real code by the
    search (encode -> DecodeFile -> equal Info dump, equal re-encoding, IsFragmented, single- and multi-track
@@ -221,6 +223,81 @@ Theorem C19_stpp_roundtrip :
     stpp_decode (stpp_payload dref ns schema mime) = Ok (dref, ns, schema, mime, 0%nat).
 Proof. exact stpp_roundtrip. Qed.
 Print Assumptions C19_stpp_roundtrip.
+
+(* ------------------------------------------------------------------ codec configuration records, byte level
+   (C19RecModel.v: avc.DecConfRec / hevc.DecConfRec Size, EncodeSW, Decode...DecConfRec) *)
+
+(* Size() is exactly the number of bytes EncodeSW writes, for EVERY record (any profile, any NoTrailingInfo, any
+   number and length of parameter sets): the FixedSliceWriter of capacity Size() never overflows or is left short *)
+Theorem C19_avcrec_size : forall r, lenN (avcrec_encode r) = avcrec_size r.
+Proof. exact avcrec_size_ok. Qed.
+Print Assumptions C19_avcrec_size.
+
+Theorem C19_hvcrec_size : forall r, lenN (hvcrec_encode r) = hvcrec_size r.
+Proof. exact hvcrec_size_ok. Qed.
+Print Assumptions C19_hvcrec_size.
+
+(* every avcC record whose values fit their fields (fewer than 32 SPS, fewer than 256 PPS, NAL units shorter than
+   2^16 bytes, chroma format < 4, bit depths < 8, no SPS extension) decodes, after encoding, to its canonical form:
+   the record itself, except that the trailing fields are zero when they are not written (profiles 66/77/88, or
+   NoTrailingInfo) -- for ALL profile values ... *)
+Theorem C19_avcrec_roundtrip :
+  forall r, avcrec_ok r = true -> avcrec_decode (avcrec_encode r) = Ok (avcrec_canon r).
+Proof. exact avcrec_roundtrip. Qed.
+Print Assumptions C19_avcrec_roundtrip.
+
+(* ... and to ITSELF for every profile other than 66/77/88 with NoTrailingInfo false (the records CreateAVCDecConfRec
+   builds): chroma format, bit depths and NoTrailingInfo = false come back for profile 244, 44, 83, 86, 118, ... *)
+Theorem C19_avcrec_roundtrip_exact :
+  forall r, avcrec_ok r = true -> avc_has_trailing r = true -> avcrec_decode (avcrec_encode r) = Ok r.
+Proof. exact avcrec_roundtrip_exact. Qed.
+Print Assumptions C19_avcrec_roundtrip_exact.
+
+(* every hvcC record whose values fit their fields decodes, after encoding, to itself (all 17 scalar fields and
+   every NAL unit array: header byte incl. the reserved bit, NAL units byte for byte) *)
+Theorem C19_hvcrec_roundtrip :
+  forall r, hvcrec_ok r = true -> hvcrec_decode (hvcrec_encode r) = Ok r.
+Proof. exact hvcrec_roundtrip. Qed.
+Print Assumptions C19_hvcrec_roundtrip.
+
+(* SetAVCDescriptor, any SPS parser: the avcC of the new sample entry is the record (profile, compatibility, level,
+   chroma format, bit depths of the parsed SPS; exactly the supplied parameter sets; no SPS extension; trailing info
+   present), its encoding has Size() bytes and decodes to its canonical form -- to the record itself unless the
+   profile is 66/77/88 *)
+Theorem C19_descriptor_avc_record :
+  forall (avc_parse : avc_parser) t name spss ppss incl t',
+    set_avc avc_parse t name spss ppss incl = (OOk, t') ->
+    nalus_fit 32 spss = true -> nalus_fit 256 ppss = true ->
+    exists sps0 rest w h p c l cf bl bc e a,
+      spss = sps0 :: rest /\ avc_parse sps0 = Some (w, h, (p, c, l, (cf, bl, bc)))
+      /\ sd_entries t' = sd_entries t ++ [e] /\ se_cfg e = CfgAvcC a
+      /\ avcrec_of a = mkAvcRec p c l (if incl then spss else []) (if incl then ppss else []) cf bl bc 0 false
+      /\ lenN (avcrec_encode (avcrec_of a)) = avcrec_size (avcrec_of a)
+      /\ avcrec_decode (avcrec_encode (avcrec_of a)) = Ok (avcrec_canon (avcrec_of a))
+      /\ (avc_plain p = false -> avcrec_decode (avcrec_encode (avcrec_of a)) = Ok (avcrec_of a)).
+Proof. exact set_avc_record. Qed.
+Print Assumptions C19_descriptor_avc_record.
+
+(* SetHEVCDescriptor, any SPS parser whose answers are in the ranges of the syntax (hevc_cfg_ok): the hvcC of the
+   new sample entry is the record with the parsed profile/tier/level/chroma/bit-depth values, the constants of
+   CreateHEVCDecConfRec and the VPS/SPS/PPS(/SEI) arrays of the supplied NAL units; it encodes to Size() bytes and
+   decodes to itself *)
+Theorem C19_descriptor_hevc_record :
+  forall (hevc_parse : hevc_parser) t name vpss spss ppss seis incl t',
+    set_hevc hevc_parse t name vpss spss ppss seis incl = (OOk, t') ->
+    nalus_fit 65536 vpss = true -> nalus_fit 65536 spss = true -> nalus_fit 65536 ppss = true -> nalus_fit 65536 seis = true ->
+    (forall sps w h cfg, hevc_parse sps = Some (w, h, cfg) -> hevc_cfg_ok cfg = true) ->
+    exists sps0 rest w h space tier idc compat constr level chroma bdl bdc e hc r,
+      spss = sps0 :: rest
+      /\ hevc_parse sps0 = Some (w, h, [space; tier; idc; compat; constr; level; chroma; bdl; bdc])
+      /\ sd_entries t' = sd_entries t ++ [e] /\ se_cfg e = CfgHvcC hc
+      /\ hvcrec_of hc = Some r
+      /\ r = mkHvcRec 1 space (negb (tier =? 0)) idc compat constr level 0 0 chroma bdl bdc 0 0 0 0 3
+                      (spec_hevc_arrays name vpss spss ppss seis incl)
+      /\ lenN (hvcrec_encode r) = hvcrec_size r
+      /\ hvcrec_decode (hvcrec_encode r) = Ok r.
+Proof. exact set_hevc_record. Qed.
+Print Assumptions C19_descriptor_hevc_record.
 
 (* Outside the quantifier (history starting from a DECODED init), reproduced on the real code by the harness:
    AddEmptyTrack repeats an id when the decoded ids are not 1..n, and does not keep the traks together when the
@@ -259,3 +336,33 @@ Proof. vm_compute. repeat split; reflexivity. Qed.
 
 Example C19_aac_domain_hyp : In (29, 24000) aac_domain /\ In (2, 96000) aac_domain.
 Proof. split; vm_compute; tauto. Qed.
+
+(* the record hypotheses are satisfiable: High 4:4:4 Predictive (244), 4:4:4, 10/12 bit, two SPS, one PPS ... *)
+Definition ex_avcrec : avcrec := mkAvcRec 244 0 51 [[103; 244; 0; 51; 1]; [103; 244]] [[104; 206; 56; 128]] 3 2 4 0 false.
+Example C19_avcrec_hyp :
+  avcrec_ok ex_avcrec = true /\ avc_has_trailing ex_avcrec = true /\ avcrec_size ex_avcrec = 28
+  /\ avcrec_decode (avcrec_encode ex_avcrec) = Ok ex_avcrec.
+Proof. vm_compute. repeat split; reflexivity. Qed.
+
+(* ... and the trailing bytes are what makes the difference: without them the same record reads back as
+   monochrome 8 bit with NoTrailingInfo (what a writer that omits them for profile 244 would produce) *)
+Example C19_avcrec_without_trailing :
+  avcrec_decode (avcrec_encode (mkAvcRec 244 0 51 [[103; 244; 0; 51; 1]; [103; 244]] [[104; 206; 56; 128]] 3 2 4 0 true))
+  = Ok (mkAvcRec 244 0 51 [[103; 244; 0; 51; 1]; [103; 244]] [[104; 206; 56; 128]] 0 0 0 0 true).
+Proof. vm_compute. reflexivity. Qed.
+
+Definition ex_hvcrec : hvcrec :=
+  mkHvcRec 1 0 true 4 134217728 158329674399744 153 0 0 3 4 4 0 0 0 0 3 [(160, [[64; 1; 12]]); (161, [[66; 1; 1]; [66; 1; 2]]); (162, [])].
+Example C19_hvcrec_hyp :
+  hvcrec_ok ex_hvcrec = true /\ hvcrec_size ex_hvcrec = 47 /\ hvcrec_decode (hvcrec_encode ex_hvcrec) = Ok ex_hvcrec.
+Proof. vm_compute. repeat split; reflexivity. Qed.
+
+(* a parser whose answers are in range (the answer of the real parser for the 960x540 SPS of examples/initcreator) *)
+Definition ex_hevc_const : hevc_parser := fun _ => Some (960, 540, [0; 0; 2; 536870912; 0; 123; 1; 2; 2]).
+Example C19_record_hyp :
+  nalus_fit 32 [[103; 100; 0; 32]] = true /\ nalus_fit 256 [[104; 181]] = true
+  /\ (forall sps w h cfg, ex_hevc_const sps = Some (w, h, cfg) -> hevc_cfg_ok cfg = true).
+Proof.
+  split; [vm_compute; reflexivity|]. split; [vm_compute; reflexivity|].
+  intros sps w h cfg E. unfold ex_hevc_const in E. inversion E. vm_compute. reflexivity.
+Qed.
